@@ -311,6 +311,8 @@ def normalize_shape(
             assert isinstance(s, INT_CLASSES)
             if s < 0:
                 raise ValueError(f"size parameter must be nonnegative (got '{s}')")
+            # fixed-width NumPy integers wrap around in products of axis lengths
+            s = int(s)
 
         return s
 
